@@ -105,7 +105,7 @@ func Observe(m *ast.MsgNode) (o Obs, err error) {
 	if o.Names == nil {
 		o.Names = []string{}
 	}
-	o.PhStr = soymsg.PlaceholderString(m)
+	o.PhStr = SafeStr(soymsg.PlaceholderString(m))
 	o.ID = m.ID
 	return o, nil
 }
